@@ -26,31 +26,68 @@ class Flow:
         self.fn = fn
         self.fwd = defaultdict(set)
         self.bwd = defaultdict(set)
+        self.pbwd = defaultdict(set)        # pure data dependence (no alias / out-parameter edges)
         self.consts = defaultdict(list)     # local -> [const dicts assigned into it]
         self.call_defs = defaultdict(list)  # local -> [(bb, term)] calls whose dest is the local
         self.arg_uses = defaultdict(list)   # local -> [(bb, term, argidx)]
         self.agg_defs = defaultdict(list)   # local -> [(bb, idx, stmt)] aggregate definitions
         self._build(include_cleanup)
 
-    def edge(self, u, v):
+    def edge(self, u, v, pure=False):
         if u == v:
             return
         self.fwd[u].add(v)
         self.bwd[v].add(u)
+        if pure:
+            self.pbwd[v].add(u)
+
+    def back_pure(self, locals_, stop=None):
+        """Backward data dependence through assignments and call results only:
+        no aliasing through `&mut`, no out-parameters.  Under-approximates
+        flows through memory, so it is used where precision matters (which
+        binding a value came from), never to prove absence of a flow."""
+        seen = set(locals_)
+        dq = deque(locals_)
+        while dq:
+            x = dq.popleft()
+            if stop is not None and stop(x):
+                continue
+            for y in self.pbwd.get(x, ()):
+                if y not in seen:
+                    seen.add(y)
+                    dq.append(y)
+        return seen
+
+    def node(self, pl):
+        """Graph node of a place: its base local, except that in a closure body
+        the captured variable k (`_1.k` / `(*_1).k`) is the pseudo-local -(k+1),
+        so captures do not merge."""
+        if self.is_closure and pl["l"] == 1:
+            for e in pl["p"]:
+                if e == "*":
+                    continue
+                if isinstance(e, dict) and "f" in e and str(e["f"]).isdigit():
+                    return -(int(e["f"]) + 1)
+                break
+        return pl["l"]
+
+    def upvar_node(self, k):
+        return -(k + 1)
 
     def _build(self, include_cleanup):
         fn = self.fn
+        self.is_closure = fn.kind == "Closure"
         for bb, b in enumerate(fn.blocks):
             if b.get("cleanup") and not include_cleanup:
                 continue
             for i, s in enumerate(b["s"]):
-                dest = s["pl"]["l"]
+                dest = self.node(s["pl"])
                 rv = s["rv"]
                 # index locals used in the destination projection do not carry value
                 for o in rv_operands(rv):
                     p = op_place(o)
                     if p is not None:
-                        self.edge(p["l"], dest)
+                        self.edge(self.node(p), dest, pure=True)
                     else:
                         c = op_const(o)
                         if c is not None:
@@ -63,30 +100,30 @@ class Flow:
                     alias = True
                 elif k == "rawptr":
                     alias = True
-                elif k in ("cast", "use") and _is_mutptr_ty(fn.local_ty(dest)) and not s["pl"]["p"]:
+                elif k in ("cast", "use") and dest >= 0 and _is_mutptr_ty(fn.local_ty(dest)) and not s["pl"]["p"]:
                     alias = True
                 if alias:
                     for o in rv_operands(rv):
                         p = op_place(o)
                         if p is not None:
-                            self.edge(dest, p["l"])
+                            self.edge(dest, self.node(p))
             t = b["t"]
             if t["k"] == "call":
-                dest = t["dest"]["l"]
+                dest = self.node(t["dest"])
                 self.call_defs[dest].append((bb, t))
                 arg_locals = []
                 arg_consts = []
                 for ai, a in enumerate(t["args"]):
                     p = op_place(a)
                     if p is not None:
-                        arg_locals.append((ai, p["l"]))
-                        self.arg_uses[p["l"]].append((bb, t, ai))
+                        arg_locals.append((ai, self.node(p)))
+                        self.arg_uses[self.node(p)].append((bb, t, ai))
                     else:
                         c = op_const(a)
                         if c is not None:
                             arg_consts.append(c)
                 for ai, l in arg_locals:
-                    self.edge(l, dest)
+                    self.edge(l, dest, pure=True)
                 self.consts[dest].extend(arg_consts)
                 tys = t.get("arg_tys", [])
                 for ai, l in arg_locals:
@@ -95,6 +132,16 @@ class Flow:
                             if aj != ai:
                                 self.edge(l2, l)
                         self.consts[l].extend(arg_consts)
+
+    def ty(self, node):
+        """Type string of a node; captured variables report the type of the
+        first local they are copied/borrowed into (or 'upvar')."""
+        if node >= 0:
+            return self.fn.local_ty(node)
+        for v in sorted(self.fwd.get(node, ())):
+            if v >= 0:
+                return "upvar:" + self.fn.local_ty(v)
+        return "upvar"
 
     # -- queries ---------------------------------------------------------------
     def back(self, locals_, stop=None):
